@@ -215,7 +215,8 @@ func portIndexer(y any, p tree.Path) (string, error) {
 		if !ok {
 			protocol = "tcp"
 		}
-		return fmt.Sprintf("%s:%s:%d/%s", host, published, target, protocol), nil
+		// published may be written as a number or as a string: the same port either way
+		return fmt.Sprintf("%v:%v:%d/%v", host, published, target, protocol), nil
 	case string:
 		return value, nil
 	}
